@@ -5,10 +5,13 @@
               2 = record, 3 = Close), 41 [passes] per reporting thread,
               42 [thread; choice; ...] the executed schedule (choice = key visited by
               the pass at a label-31 step, -1 otherwise)
+   The schedule is run on the registry model under the clock of Model/RegPass.v: a report pass
+   of the implementation that ends before it has visited every binding that is older than the
+   pass (Go's map iteration guarantee; the guard of C07_closed_is_visited) is mismatch 6.
    observed = 43 [label after each step], 45 [object returned by each completed
               obtain, in completion order], 46 [applied; delivered; ...] per object *)
 From Coq Require Import ZArith List Bool Arith.
-From Tally Require Import Base.Obs Model.Registry.
+From Tally Require Import Base.Obs Model.Registry Model.RegPass.
 Import ListNotations.
 Open Scope Z_scope.
 
@@ -51,21 +54,22 @@ Definition getting (t : thread) : bool :=
   | _, _ => false
   end.
 
-Fixpoint run_obs (san : nat -> nat) (s : sys) (sched : list (nat * nat)) : sys * list Z * list Z :=
+Fixpoint run_obs (san : nat -> nat) (s : isys) (sched : list (nat * nat)) : isys * list Z * list Z * bool :=
   match sched with
-  | [] => (s, [], [])
+  | [] => (s, [], [], false)
   | ic :: r =>
-      let s' := step san s ic in
+      let rf := refused s ic in
+      let s' := istep san s ic in
       let i := fst ic in
-      let l := match nth_error (thr s') i with Some t => label t | None => -2 end in
-      let g := match nth_error (thr s) i, nth_error (thr s') i with
+      let l := match nth_error (thr (base s')) i with Some t => label t | None => -2 end in
+      let g := match nth_error (thr (base s)) i, nth_error (thr (base s')) i with
                | Some t, Some t' =>
                    if getting t && is_idle t' then
                      match cur t' with Some o => [Z.of_nat o] | None => [] end
                    else []
                | _, _ => []
                end in
-      let '(sf, ls, gs) := run_obs san s' r in (sf, l :: ls, g ++ gs)
+      let '(sf, ls, gs, rfs) := run_obs san s' r in (sf, l :: ls, g ++ gs, rf || rfs)
   end.
 
 Definition objs_obs (s : sys) : list Z :=
@@ -75,12 +79,13 @@ Definition check (c : gcase) : Z :=
   match gparams c with
   | _ :: _ :: n :: tbl =>
       let es := ginput c in
-      let '(sf, ls, gs) := run_obs (san_of tbl) (init (threads_of es)) (sched_of es) in
+      let '(sf, ls, gs, rf) := run_obs (san_of tbl) (iinit (threads_of es)) (sched_of es) in
       match gobserved c with
       | [o1; o2; o3] =>
-          if negb (ev_eqb (Ev 43 ls []) o1) then 1
+          if rf then 6
+          else if negb (ev_eqb (Ev 43 ls []) o1) then 1
           else if negb (ev_eqb (Ev 45 gs []) o2) then 2
-          else if negb (ev_eqb (Ev 46 (objs_obs sf) []) o3) then 3
+          else if negb (ev_eqb (Ev 46 (objs_obs (base sf)) []) o3) then 3
           else 0
       | _ => 4
       end
